@@ -164,7 +164,10 @@ package sample
 // C09: the text a value contributes to the key depends on the number, not on the Go type the wire encoding
 // produced for it (JSON: float64; msgpack: int64 / uint64 / float32 / float64): every number reads as the plain
 // decimal text of its value.
-//@ spec keyText(v any) string := ite(isString(v), anyString(v), strconv.FormatFloat(numOf(v), 'f', -1, 64))
+// a whole number reads as its decimal integer whatever its size; any other number in plain decimal notation
+//@ spec numText(x float64) string := ite(x == math.Trunc(x) && math.Abs(x) < 18446744073709551616.0, strconv.FormatFloat(x, 'f', 0, 64), strconv.FormatFloat(x, 'f', -1, 64))
+//@ contract sample.appendFloat inline
+//@ spec keyText(v any) string := ite(isString(v), anyString(v), numText(numOf(v)))
 // offeredN(d): how many values have been offered to the collector of distinct values (call log)
 //@ ghost offeredN(ref) int
 //@ contract sample.(*distinctValue).AddAsString props C11,C09
@@ -172,9 +175,9 @@ package sample
 //@   ghostupdate[offered@C11] offeredN(d) :: offeredN(d) == old(offeredN(d)) + 1
 //@   requires d != nil && 0 <= fieldIdx && fieldIdx < len(d.values)
 //@   requires[slots-consistent] forall i int :: 0 <= i && i < len(d.values) ==> slotsConsistent(d.values[i])
-// strings and numbers have a modelled text form (integers up to 2^53 in magnitude are the ones a float64 carries
-// exactly); booleans, nil and nested values are formatted by fmt and not compared across encodings here
-//@   domain[string-or-number] isString(value) || (isNumeric(value) && (isInt64(value) || isInt(value) || isUint64(value) ==> -9007199254740992 <= anyInt(value) && anyInt(value) <= 9007199254740992))
+// strings and numbers have a modelled text form; booleans, nil and nested values are formatted by fmt and not
+// compared across encodings here
+//@   domain[string-or-number] isString(value) || isNumeric(value)
 // the formatting differs per dynamic type; the solvers do not find this case analysis by themselves in time
 //@   split isString(value)
 //@   split isInt64(value)
